@@ -88,3 +88,35 @@ package jpeg
 //@   modifies jr.discarded, stream(jr.br)
 //@   ensures [C10] pos(jr.br) >= old(pos(jr.br))
 //@   ensures [C10] err == nil && jr.ExifReader == nil ==> pos(jr.br) == old(pos(jr.br)) + 2 + int(jr.size)
+
+// The XMP callback is handed a reader limited to the packet: the APP1 payload after the 29-byte namespace prefix.
+// ASSUMED about the callback: it acts only through the *io.LimitedReader it is given, so what it consumes from the
+// underlying stream equals the decrease of the remaining count N (that is the behaviour of io.LimitedReader.Read).
+// Whatever it consumes, readXMP discards the rest, so the scan resumes exactly at the next marker; since the resume
+// position is old position + 4 + 29 + N, this postcondition also pins the packet start and the limit N = length - 31.
+//@ dep callback jpeg.jpegReader.XMPReader
+//@   names r -> err
+//@   modifies as(r, "*io.LimitedReader").N, stream(as(r, "*io.LimitedReader").R)
+//@   ensures old(as(r, "*io.LimitedReader").N) >= 0 ==> 0 <= as(r, "*io.LimitedReader").N && as(r, "*io.LimitedReader").N <= old(as(r, "*io.LimitedReader").N) && pos(as(r, "*io.LimitedReader").R) == old(pos(as(r, "*io.LimitedReader").R)) + int(old(as(r, "*io.LimitedReader").N) - as(r, "*io.LimitedReader").N)
+//@   ensures old(as(r, "*io.LimitedReader").N) < 0 ==> as(r, "*io.LimitedReader").N == old(as(r, "*io.LimitedReader").N) && pos(as(r, "*io.LimitedReader").R) == old(pos(as(r, "*io.LimitedReader").R))
+
+//@ func (*jpegReader).readXMP
+//@   props C02 C10
+//@   requires atMarker(jr)
+//@   modifies jr.discarded, stream(jr.br), io.LimitedReader.N
+//@   ensures [C10] pos(jr.br) >= old(pos(jr.br))
+//@   ensures [C10] err == nil ==> pos(jr.br) == old(pos(jr.br)) + 2 + int(jr.size)
+
+//@ func (*jpegReader).readAPP1
+//@   props C02 C10
+//@   requires atMarker(jr)
+//@   modifies jr.err, jr.discarded, stream(jr.br), io.LimitedReader.N
+//@   ensures [C10] pos(jr.br) >= old(pos(jr.br))
+//@   ensures [C10] jr.err == nil && jr.ExifReader == nil ==> pos(jr.br) == old(pos(jr.br)) + 2 + int(jr.size)
+
+//@ func (*jpegReader).readAPPMarker
+//@   props C02 C10
+//@   requires atMarker(jr)
+//@   modifies jr.err, jr.discarded, stream(jr.br), io.LimitedReader.N
+//@   ensures [C10] pos(jr.br) >= old(pos(jr.br))
+//@   ensures [C10] jr.err == nil && jr.ExifReader == nil ==> pos(jr.br) == old(pos(jr.br)) + 2 + int(jr.size)
